@@ -94,10 +94,17 @@ theorem hav_bearing_range (T : Trig Rat) (a b : P2 Rat)
     0 ≤ normBearing id (havBearingRaw T a b) ∧ normBearing id (havBearingRaw T a b) < 360 :=
   bearing_range _ h.1 h.2
 
-theorem rhumb_bearing_range (T : Trig Rat) (a b : P2 Rat)
+/-- [T] Rhumb, under the hypothesis that the raw angle is a number in [-180, 180]. Known finding
+K16c (open): with both points at latitude -90 the binary64 code computes `ln(tan 0 / tan 0) = NaN`
+for `delta_psi`, `atan2(_, NaN) = NaN`, and the hypothesis (hence the conclusion) fails; the exact
+model has no NaN, the class is pinned down by the driver clause
+`rhumb-bearing-nan-both-at-south-pole`. -/
+theorem rhumb_bearing_range_partial (T : Trig Rat) (a b : P2 Rat)
     (h : -180 ≤ rhumbBearingRaw T a b ∧ rhumbBearingRaw T a b ≤ 180) :
     0 ≤ normBearing id (rhumbBearingRaw T a b) ∧ normBearing id (rhumbBearingRaw T a b) < 360 :=
   bearing_range _ h.1 h.2
+-- full statement: 0 ≤ Rhumb.bearing a b < 360 for all latitudes in [-90, 90] (fails on the real
+-- code exactly when a.y = b.y = -90).
 
 /-! ### `normalize_longitude` -/
 
